@@ -14,8 +14,9 @@ S=/tmp/vcov; mkdir -p "$S/root" "$S/prof"; rm -f "$S"/prof/*.profraw
 BINDIR="$(dirname "$(find "$HOME/.rustup/toolchains/nightly-x86_64-unknown-linux-gnu" -name llvm-cov | head -1)")"
 cp "$ROOT/known_findings.json" "$S/root/"
 export CARGO_NET_OFFLINE=true
-(cd "$ROOT/harness" && RUSTFLAGS="-Cinstrument-coverage" CARGO_TARGET_DIR="$S/target" \
+(cd "$ROOT/harness" && LLVM_PROFILE_FILE="$S/prof/build-%p-%m.profraw" RUSTFLAGS="-Cinstrument-coverage" CARGO_TARGET_DIR="$S/target" \
    cargo +nightly build --offline --profile verif --quiet 2>"$S/build.log") || { echo "coverage build failed"; tail "$S/build.log"; exit 2; }
+rm -f "$S"/prof/build-*.profraw
 for id in $IDS; do
   LLVM_PROFILE_FILE="$S/prof/$id-%p-%m.profraw" VERIF_ROOT="$S/root" "$S/target/verif/vmon" check "$id" "$TIER" 2>&1 | tail -1
 done
